@@ -45,7 +45,7 @@ FP = [('jedi/api/project.py', '_remove_duplicates_from_path'),
 BASE_FP = {
     'jedi/api/project.py:_remove_duplicates_from_path': '4d7c0dbc96834d2d',
     'jedi/api/project.py:Project.__init__': '2d57fdb059bcfe47',
-    'jedi/api/project.py:Project.save': '2ec73dfd9cf5d116',
+    'jedi/api/project.py:Project.save': '37bbb830064658dd',   # after ba5f9c2 (environment_path stringified)
     'jedi/api/project.py:Project.load': '624332aa5b42da4b',
     'jedi/api/project.py:Project._get_base_sys_path': '3b64cea3ba579917',
     'jedi/api/project.py:Project._get_sys_path': '5707302c0d6202cb',
@@ -621,7 +621,8 @@ def _roundtrip_task(c):
         jf = os.path.join(L['P'], '.jedi', 'project.json')
         try:
             p.save()
-        except TypeError as e:
+        except Exception as e:
+            # the model says save() always succeeds (since ba5f9c2 also for a pathlib.Path environment_path)
             return dict(ok=True, before=before, after=None, save_exc=common.exc_sig(e))
         after_dict = observe_project(p)
         raw = json.load(open(jf, encoding='utf8')) if os.path.exists(jf) else None
@@ -637,7 +638,7 @@ ROUNDTRIP_FN = '''
   let cw := parse_path cwd in
   let p := mk_project cw a in
   observed_eqb (observe p) ob &&
-  opt_observed_eqb (option_map (fun j => observe (load cw j)) (save p)) oa)
+  opt_observed_eqb (Some (observe (load cw (save p)))) oa)
 '''
 
 
@@ -668,7 +669,13 @@ def stream_roundtrip(ctx, root, n):
             dist['save_raised'] += 1
         else:
             names = ['path', 'path', 'environment_path', 'sys_path', 'added_sys_path', 'smart_sys_path', 'load_unsafe_extensions']
-            diff = sorted({names[k] for k in range(7) if before[k] != after[k]})
+            # environment_path may be given as a pathlib.Path; like sys_path entries it is the *str* that must
+            # survive (before[2] = (kind, str(value)))
+            env_str = lambda e: None if e is None else e[1]
+            diff = sorted({names[k] for k in range(7)
+                           if (env_str(before[k]) != env_str(after[k]) if k == 2 else before[k] != after[k])})
+            if after[2] is not None and after[2][0] != 'str':
+                diff.append('environment_path')
             if diff:
                 relp = c['args']['path'][0] == 'Path' and not before[1]
                 bad.append(('%s-differs' % diff[0], dict(path_arg='relative-Path' if relp else c['form'], fields=diff)))
@@ -680,6 +687,7 @@ def stream_roundtrip(ctx, root, n):
             want_keys = ['added_sys_path', 'environment_path', 'load_unsafe_extensions', 'path', 'smart_sys_path', 'sys_path']
             if not (isinstance(raw, list) and len(raw) == 2 and raw[0] == 1 and isinstance(raw[1], dict)
                     and sorted(raw[1]) == want_keys and raw[1]['path'] == before[0]
+                    and raw[1]['environment_path'] == env_str(before[2])
                     and raw[1]['sys_path'] == before[3] and raw[1]['added_sys_path'] == before[4]
                     and raw[1]['smart_sys_path'] == before[5] and raw[1]['load_unsafe_extensions'] == before[6]):
                 bad.append(('json-file-shape', dict(raw=short(root, raw))))
@@ -707,7 +715,7 @@ def stream_roundtrip(ctx, root, n):
             if shown <= 4:
                 g = G()
                 model = common.coq_show(IMPORTS, defs=ADEF, exprs=[g.wrap('let cw := parse_path %s in let p := mk_project cw %s in '
-                                                         '(observe p, option_map (fun j => observe (load cw j)) (save p))'
+                                                         '(observe p, observe (load cw (save p)))'
                                                          % (g.s(c['cwd']), g.args(c['args'])))])
                 ctx.violation('obligation', dict(what='correspondence mk_project/save/load: model and implementation differ; '
                                                       'the loaded project equals the saved one', model=model[-2500:], **data),
@@ -1005,7 +1013,7 @@ def replay(ctx, path):
                 print('save/load raised now:', repr(e))
             g = G()
             print('model:', common.coq_show(IMPORTS, defs=ADEF, exprs=[g.wrap('let cw := parse_path %s in let p := mk_project cw %s in '
-                                                             '(observe p, option_map (fun j => observe (load cw j)) (save p))'
+                                                             '(observe p, observe (load cw (save p)))'
                                                              % (g.s(inp['cwd']), g.args(a)))])[-2000:])
         else:
             sc = inp.get('script')
